@@ -281,7 +281,7 @@ func runReCell(c reCell) (fired bool, fail string) {
 		// closed inside the connection listener: nothing more to drive
 		return fired, ""
 	}
-	cl := hbClient{s}
+	cl := hbClient{s: s}
 	cl.keepPolling()
 	// traffic that makes every event fire
 	if c.Event == "callback" {
@@ -302,7 +302,7 @@ func runReCell(c reCell) (fired bool, fail string) {
 		if wc != nil && sr.Sock.Transport().Name() == "websocket" {
 			// the client now talks over the new transport
 			s = &c06Sess{wc: wc}
-			cl = hbClient{s}
+			cl = hbClient{s: s}
 		} else if wc != nil {
 			// the listener closed the session or the attempt was abandoned: the client lets go of the candidate
 			wc.Drop()
